@@ -207,6 +207,27 @@ BinVariance(h, i) ==
     LET tot == SumBins(h.bins) IN
     IF tot = 0 THEN Cls("nan") ELSE Val(RMul(R(h.bins[i]), RSub(One, Norm(h.bins[i], tot))))
 
+(***************************************************************************)
+(* Iteration (IterHistogram): a cursor over the bins.  `&h` into_iter() /  *)
+(* h.iter() start at position 0; next() yields ((lower, upper), count) of  *)
+(* the bin at the cursor and advances, or None -- for ever -- once LEN     *)
+(* items have been produced; a clone of the iterator continues from the    *)
+(* same position.  So a full traversal yields exactly ItemsOf(h).          *)
+(***************************************************************************)
+ItemsOf(h) == [i \in 1..LEN |-> <<h.edges[i], h.edges[i + 1], h.bins[i]>>]
+IterNew(h) == [h |-> h, pos |-> 0]
+IterNext(it) ==      \* <<item or "none", iterator afterwards>>
+    IF it.pos < LEN THEN <<ItemsOf(it.h)[it.pos + 1], [it EXCEPT !.pos = @ + 1]>>
+    ELSE <<"none", it>>
+RECURSIVE IterDrain(_)
+IterDrain(it) == IF it.pos >= LEN THEN <<>> ELSE <<IterNext(it)[1]>> \o IterDrain(IterNext(it)[2])
+\* from any position the remainder is the tail of ItemsOf, and the end is absorbing
+IterLaws(h) ==
+    /\ IterDrain(IterNew(h)) = ItemsOf(h)
+    /\ \A k \in 0..LEN : IterDrain([h |-> h, pos |-> k]) = SubSeq(ItemsOf(h), k + 1, LEN)
+    /\ IterNext([h |-> h, pos |-> LEN])[1] = "none"
+IterationOK == \A s \in Slots : hist[s].built => IterLaws(hist[s])
+
 \* with_const_width(start, end) for finite start < end: edge i = start + i * (end - start) / LEN
 ConstWidthEdges(a, b) == [i \in 1..(LEN + 1) |-> RAdd(a, RDivI(RMulI(RSub(b, a), i - 1), LEN))]
 ConstWidthOK(a, b) ==
